@@ -678,6 +678,17 @@ def run_live_popen(acc, ps):
                     viols.append(("live_popen_wait_value_wrong", f"status collected through {how}, child {kind} {v}: wait() x3 -> {got} want {want}"))
                 if p.returncode != want:
                     viols.append(("live_popen_wrong_returncode", f"{how} {kind} {v}: returncode {p.returncode!r} want {want}"))
+                # "a negative timeout raises ValueError" - also once the status is known
+                for bad in (-1, -0.001):
+                    try:
+                        rb = p.wait(bad)
+                        viols.append(("negative_timeout_accepted:popen_after_exit", f"Popen.wait({bad}) -> {rb!r} after the status was collected through {how}"))
+                        break
+                    except ValueError:
+                        acc.count("negative_timeouts_after_cached_result")
+                    except Exception as e:  # noqa: BLE001
+                        viols.append((f"negative_timeout_wrong_exception:{type(e).__name__}", f"Popen.wait({bad})"))
+                        break
             except Exception as e:  # noqa: BLE001
                 viols.append((f"live_exception:{type(e).__name__}", f"Popen {how} {kind} {v}: {e!r}"))
             finally:
